@@ -3,6 +3,9 @@ package main
 import (
 	"bufio"
 	"bytes"
+	"encoding/json"
+	"os"
+	"runtime"
 	"errors"
 	"fmt"
 	"io"
@@ -65,7 +68,7 @@ func readFields(br *bufio.Reader) ([]HF, error) {
 func readHead(br *bufio.Reader) (*Msg, error) {
 	l, err := readLine(br)
 	if err != nil {
-		if l == "" && err == io.EOF {
+		if l == "" { // the peer went away between two messages (with EOF or with its own error)
 			return nil, io.EOF
 		}
 		return &Msg{Line: l}, io.ErrUnexpectedEOF
@@ -197,7 +200,17 @@ func handleErrClass(err error) string {
 	return "err:other:" + s
 }
 
-const watchdog = 90 * time.Second
+var watchdog = 90 * time.Second
+
+func init() {
+	if v := os.Getenv("C16_WATCHDOG_S"); v != "" {
+		if n, err := strconv.Atoi(v); err == nil {
+			watchdog = time.Duration(n) * time.Second
+		}
+	}
+}
+
+var dumpOnce sync.Once
 
 // runImpl plays the case against the real proxy server: client <-pipe-> HandleStream/Proceed <-> origin.
 func runImpl(c *Case) *Obs {
@@ -309,6 +322,9 @@ func runImpl(c *Case) *Obs {
 			st.cond.Broadcast()
 			st.mu.Unlock()
 			if err != nil {
+				if os.Getenv("C16_SHOWOBS") != "" {
+					fmt.Fprintln(os.Stderr, "client reader stops:", err)
+				}
 				break
 			}
 		}
@@ -391,6 +407,15 @@ func runImpl(c *Case) *Obs {
 		obsMu.Lock()
 		obs.Hang = true
 		obsMu.Unlock()
+		if os.Getenv("C16_DUMP") != "" {
+			dumpOnce.Do(func() {
+				buf := make([]byte, 1<<20)
+				buf = buf[:runtime.Stack(buf, true)]
+				os.WriteFile(os.Getenv("C16_DUMP"), buf, 0o644)
+				b, _ := json.Marshal(c)
+				os.WriteFile(os.Getenv("C16_DUMP")+".case.json", append([]byte(`{"case":`), append(b, '}')...), 0o644)
+			})
+		}
 		cl.Close()
 		sv.Close()
 		ocMu.Lock()
@@ -513,11 +538,18 @@ func runOrigin(c *Case, oc netio.Conn, obs *Obs, obsMu *sync.Mutex) {
 			for ; j < len(s.Resps); j++ {
 				b := s.Resps[j].wire(method)
 				if c.OriginCloseAfter == k && c.OriginCut >= 0 && j == len(s.Resps)-1 {
-					oc.Write(b[:min(c.OriginCut, len(b))])
+					if c.OriginCut >= len(b) {
+						send(k, j, b)
+					} else {
+						oc.Write(b[:c.OriginCut])
+					}
 					return
 				}
 				if !send(k, j, b) {
 					return
+				}
+				if s.Resps[j].Body.Kind == "eof" && s.Resps[j].Garbage == "" && method != "HEAD" {
+					return // a body delimited by close: the origin closes
 				}
 			}
 		}
